@@ -334,7 +334,7 @@ def config_request_histories(prog, chk):
         queued = [c[2][1].what for c in q.calls("KSI_AsyncHandleList_append") if c[2][0] == Ptr("RQ") and isinstance(c[2][1], Ptr)]
         return H2, last("HAREQ->expectedRespCount", count), queued, notices, q.ret
 
-    for n in (2, 3):
+    for n in ((2, 3, 4) if getattr(chk, "tier", "quick") == "thorough" else (2, 3)):
         # K = a configuration that changes the consolidated values, k = one that leaves them as they are, N = the endpoint failed
         for script in itertools.product("KkN", repeat=n):
             H, count = {"state": WAIT, "err": 0, "origin": 0}, n
